@@ -353,6 +353,33 @@ def run_maps(shard: dict, res: Res) -> None:
         for _ in range(300):
             a, m, n = gen_addr(rng, cfg), gen_inc(rng), gen_inc(rng)
             check_advance(res, cfg, bus, tag, a, m, n, dict(wit, a=a, m=m, n=n))
+        # the mapping holds for the whole program, wherever its .map lines stand: code placed before them obeys the same laws
+        for _ in range(6):
+            a = gen_addr(rng, cfg)
+            rr = rm.find(cfg, a)
+            if rr is None or rr["ram"] or not rm.in_window(rr, a):
+                continue
+            n = rng.choice([1, 2, 3, 2, 2])
+            a = (a & 0xFF0000) | rng.choice([0xFFFF, 0xFFFE, a & 0xFFFF]) if rng.random() < 0.6 else a
+            if not rm.in_window(rr, a):
+                continue
+            nxt = rm.advance(cfg, a, n)
+            if nxt is None:
+                continue
+            src2 = f"*={a:#08x}\nfirst_q:\n.db {', '.join(['0x5A'] * n)}\nnext_q:\n" + src
+            r2 = assemble(src2)
+            wit2 = {"kind": "maps_late", "maps": maps, "src": src2, "a": a, "n": n}
+            res.count("code_before_map_lines")
+            if not r2.ok:
+                res.violate("late-map-lines", f"code at {a:#x} standing before the .map lines is rejected: {r2.err_kind} {r2.err_text[:160]}", wit2)
+                break
+            labs = dict(r2.labels)
+            off = rm.offset(cfg, a)
+            blk = [(o, bytes(b)) for o, b in r2.blocks if len(b)]
+            if labs.get("first_q") != a or labs.get("next_q") != nxt or blk != [(off, b"\x5a" * n)]:
+                res.violate("late-map-lines", f"code at {a:#x} before the .map lines: labels {labs.get('first_q')!r}/{labs.get('next_q')!r} expected {a:#x}/{nxt:#x}; "
+                                              f"blocks {[(hex(o), len(b)) for o, b in blk]} expected [({off:#x}, {n})]", wit2)
+                break
         res.sample({"kind": "maps", "src": src, "probes": len(probes)})
 
 
@@ -476,6 +503,18 @@ def replay(w: dict) -> Res:
             check_advance(res, cfg, bus, "api", w["a"], w["m"], w["n"], w)
         else:
             check_lookup(res, cfg, bus, "api", w["a"], bank_table(cfg), w)
+        return res
+    if w.get("kind") == "maps_late":
+        from vf.harness import assemble
+
+        cfg = rm.from_map_directives(w["maps"])
+        r2 = assemble(w["src"])
+        labs = dict(r2.labels) if r2.ok else {}
+        nxt = rm.advance(cfg, w["a"], w["n"])
+        blk = [(o, bytes(b)) for o, b in r2.blocks if len(b)] if r2.ok else None
+        res.case(w["src"], True)
+        if not r2.ok or labs.get("first_q") != w["a"] or labs.get("next_q") != nxt or blk != [(rm.offset(cfg, w["a"]), b"\x5a" * w["n"])]:
+            res.violate("late-map-lines", f"code before the .map lines: ok={r2.ok} labels {labs} blocks {blk}", w)
         return res
     if w["kind"] == "maps" or "src" in w:
         from vf.harness import assemble
